@@ -52,7 +52,7 @@ func init() {
 				}
 			}
 		},
-		Required: []string{"blocks_compared", "op_attestation", "op_proposer_slashing", "op_attester_slashing", "op_deposit", "op_exit", "op_bls_change", "op_sync_aggregate", "op_execution_payload", "op_withdrawal", "op_blob_commitment", "op_pre_merge_block", "refspec_slashings_of_validators_that_already_exited", "refspec_deneb_attestations_included_more_than_one_epoch_late",
+		Required: []string{"blocks_compared", "op_attestation", "op_proposer_slashing", "op_attester_slashing", "op_deposit", "op_exit", "op_bls_change", "op_sync_aggregate", "op_execution_payload", "op_withdrawal", "op_blob_commitment", "op_pre_merge_block", "op_merge_transition_block", "refspec_slashings_of_validators_that_already_exited", "refspec_deneb_attestations_included_more_than_one_epoch_late",
 			"first_block_after_upgrade_altair", "first_block_after_upgrade_bellatrix", "first_block_after_upgrade_capella", "first_block_after_upgrade_deneb",
 			"op_attestation_phase0", "op_attestation_altair", "op_attestation_deneb", "op_exit_deneb"},
 	})
